@@ -294,5 +294,443 @@ theorem determinant_fl (hu : M.u < 1) {n : Nat} {A : Mat (Fl M)} (hA : WFn A n) 
 
 end Det
 
+/-! ### the in-place column loops of `inverse`: structure (any scalar type) -/
+
+/-- partial-correctness rule for the descending loop `for i in (0..m).rev()` -/
+theorem foldlM_range_rev_ok_inv {σ : Type} (Q : Nat → σ → Prop) (f : σ → Nat → Res σ) :
+    ∀ (m : Nat) (s s' : σ), Q m s →
+      (∀ j s s1, j < m → Q (j + 1) s → f s j = .ok s1 → Q j s1) →
+      (List.range m).reverse.foldlM f s = .ok s' → Q 0 s'
+  | 0, s, s', h0, _, h => by
+    simp [pure, Except.pure] at h
+    subst h; exact h0
+  | m + 1, s, s', h0, hstep, h => by
+    rw [List.range_succ, List.reverse_append] at h
+    simp only [List.reverse_cons, List.reverse_nil, List.nil_append, List.cons_append,
+      List.foldlM_cons, bind, Except.bind] at h
+    cases h1 : f s m with
+    | error e => rw [h1] at h; simp at h
+    | ok s1 =>
+      rw [h1] at h
+      exact foldlM_range_rev_ok_inv Q f m s1 s' (hstep m s s1 (by omega) h0 h1)
+        (fun j s s2 hj hq hf => hstep j s s2 (by omega) hq hf) h
+
+section InvStructural
+variable {K : Type} [Add K] [Sub K] [Mul K] [Neg K] [Zero K] [One K] [BEq K] [ScalarExt K]
+
+/-- (S) the accumulation `inv[i,j] -= lu[i,k] * inv[k,j]` for `k ∈ [lo, hi)` (row `i` outside the
+range) never fails on conformable data; only entry `(i,j)` changes and it becomes the recurrence
+`sdot` in this order -/
+theorem invAcc_sdot {lu s : Mat K} {n : Nat} {e : Nat → Nat → K} (hw : WFn lu n)
+    (hs : Is s n n e) {i j lo hi : Nat} (hi' : i < n) (hj : j < n) (hlo : lo ≤ hi) (hhi : hi ≤ n)
+    (hne : ∀ k, lo ≤ k → k < hi → k ≠ i) :
+    ∃ s', forM' lo hi s (fun inv k => do
+        let kj ← inv.get k j
+        let ij ← inv.get i j
+        let ik ← lu.get i k
+        inv.set i j (ij - ik * kj)) = .ok s' ∧
+      Is s' n n (fun a b => if a = i ∧ b = j
+        then sdot (ent lu i) (fun k => e k j) (e i j) lo hi else e a b) := by
+  refine forM'_inv (fun k (s : Mat K) => Is s n n (fun a b => if a = i ∧ b = j
+        then sdot (ent lu i) (fun k' => e k' j) (e i j) lo k else e a b)) lo hi s
+    (fun inv k => do
+        let kj ← inv.get k j
+        let ij ← inv.get i j
+        let ik ← lu.get i k
+        inv.set i j (ij - ik * kj)) hlo (hs.congr (fun a b _ _ => by
+      by_cases hab : a = i ∧ b = j
+      · obtain ⟨rfl, rfl⟩ := hab
+        simp [sdot_empty]
+      · simp [hab])) ?_
+  intro k t hk1 hk2 ht
+  have hkn : k < n := by omega
+  have g1 := ht.get hkn hj
+  have g2 := ht.get hi' hj
+  have e1 : ¬ k = i := hne k hk1 hk2
+  simp only [e1, false_and, if_false] at g1
+  simp only [and_self, if_true] at g2
+  obtain ⟨t', ht', hI⟩ := ht.set hi' hj
+    (sdot (ent lu i) (fun k' => e k' j) (e i j) lo k - ent lu i k * e k j)
+  refine ⟨t', by simp only [g1, g2, hw.get hi' hkn, bind, Except.bind]; exact ht', hI.congr ?_⟩
+  intro a b _ _
+  by_cases hab : a = i ∧ b = j
+  · simp only [hab, and_self, if_true]
+    rw [sdot_succ _ _ _ hk1]
+  · simp only [hab, if_false]
+
+/-- (S) unit-lower forward substitution on column `j` of `inv`, in place: never fails, only column
+`j` changes, and the new column solves the recurrence of `forwardSub` (`forwardSub_sdot`) with
+right-hand side the old column -/
+theorem invFwd_sdot {lu inv : Mat K} {n : Nat} {v : Nat → Nat → K} (hw : WFn lu n)
+    (hv : Is inv n n v) {j : Nat} (hj : j < n) :
+    ∃ (inv' : Mat K) (y : Nat → K), forM' 0 n inv (fun inv i =>
+        forM' 0 i inv (fun inv k => do
+          let kj ← inv.get k j
+          let ij ← inv.get i j
+          let ik ← lu.get i k
+          inv.set i j (ij - ik * kj))) = .ok inv' ∧
+      Is inv' n n (fun a b => if b = j then y a else v a b) ∧
+      ∀ r, r < n → y r = sdot (ent lu r) y (v r j) 0 r := by
+  obtain ⟨inv', hinv, y, hI, hy⟩ := forM'_inv
+    (fun i (s : Mat K) => ∃ y : Nat → K,
+      Is s n n (fun a b => if b = j ∧ a < i then y a else v a b) ∧
+      ∀ r, r < i → y r = sdot (ent lu r) y (v r j) 0 r)
+    0 n inv (fun inv i =>
+        forM' 0 i inv (fun inv k => do
+          let kj ← inv.get k j
+          let ij ← inv.get i j
+          let ik ← lu.get i k
+          inv.set i j (ij - ik * kj))) (Nat.zero_le _)
+    ⟨fun _ => 0, hv.congr (fun a b _ _ => by simp), fun r hr => by omega⟩
+    (by
+      rintro i s _ hi ⟨y, hs, hy⟩
+      obtain ⟨s', hs', hI⟩ := invAcc_sdot hw hs (i := i) (j := j) (lo := 0) (hi := i) hi hj
+        (Nat.zero_le _) (le_of_lt hi) (fun k _ hk => by omega)
+      have hcg : ∀ q, q ≤ i → ∀ c : K,
+          sdot (ent lu q) (fun a => if a = i then sdot (ent lu i) y (v i j) 0 i else y a) c 0 q
+            = sdot (ent lu q) y c 0 q := by
+        intro q hq c
+        apply sdot_congr
+        intro t _ ht
+        have : ¬ t = i := by omega
+        exact ⟨rfl, by simp only [this, if_false]⟩
+      refine ⟨s', hs', fun a => if a = i then sdot (ent lu i) y (v i j) 0 i else y a,
+        hI.congr ?_, ?_⟩
+      · intro a b _ _
+        by_cases hab : a = i ∧ b = j
+        · obtain ⟨rfl, rfl⟩ := hab
+          have e2 : a < a + 1 := by omega
+          simp only [and_self, if_true, e2, true_and, Nat.lt_irrefl, if_false]
+          apply sdot_congr
+          intro t _ ht
+          refine ⟨rfl, ?_⟩
+          simp only [ht, if_true]
+        · rw [if_neg hab]
+          by_cases hb : b = j
+          · subst hb
+            have hai : ¬ a = i := fun e => hab ⟨e, rfl⟩
+            have : (a < i + 1) = (a < i) := by apply propext; omega
+            simp only [true_and, this, hai, if_false]
+          · simp only [hb, false_and, if_false]
+      · intro r hr
+        rw [hcg r (by omega)]
+        by_cases hri : r = i
+        · subst hri
+          simp only [if_true]
+        · simp only [hri, if_false]
+          exact hy r (by omega))
+  exact ⟨inv', y, hinv, hI.congr (fun a b ha _ => by simp [ha]), hy⟩
+
+/-- (S) upper-triangular back substitution on column `j` of `inv`, in place: whenever it returns,
+only column `j` changed, every division succeeded and the new column solves the recurrence of
+`backsolve` (`backsolve_sdot`: `sdot` over `k = i+1, …, n-1`, then one division) with right-hand
+side the old column -/
+theorem invBack_sdot {lu inv inv' : Mat K} {n : Nat} {v : Nat → Nat → K} (hw : WFn lu n)
+    (hv : Is inv n n v) {j : Nat} (hj : j < n)
+    (h : (List.range n).reverse.foldlM (fun inv i => do
+        let inv ← forM' (i + 1) n inv (fun inv k => do
+          let kj ← inv.get k j
+          let ij ← inv.get i j
+          let ik ← lu.get i k
+          inv.set i j (ij - ik * kj))
+        let ij ← inv.get i j
+        let ii ← lu.get i i
+        let q ← divM ij ii
+        inv.set i j q) inv = .ok inv') :
+    ∃ x : Nat → K, Is inv' n n (fun a b => if b = j then x a else v a b) ∧
+      ∀ i, i < n → divM (sdot (ent lu i) x (v i j) (i + 1) n) (ent lu i i) = .ok (x i) := by
+  obtain ⟨x, hI, hx⟩ := foldlM_range_rev_ok_inv
+    (fun m (s : Mat K) => ∃ x : Nat → K,
+      Is s n n (fun a b => if b = j ∧ m ≤ a then x a else v a b) ∧
+      ∀ i, m ≤ i → i < n → divM (sdot (ent lu i) x (v i j) (i + 1) n) (ent lu i i) = .ok (x i))
+    _ n inv inv'
+    ⟨fun _ => 0, hv.congr (fun a b ha _ => by
+      have : ¬ n ≤ a := by omega
+      simp [this]), fun r h1 h2 => by omega⟩
+    (by
+      rintro i s s1 hi ⟨x, hs, hx⟩ hf
+      obtain ⟨t, ht, hI1⟩ := invAcc_sdot hw hs (i := i) (j := j) (lo := i + 1) (hi := n) hi hj
+        (by omega) (le_refl _) (fun k hk _ => by omega)
+      have g1 : t.get i j = .ok (sdot (ent lu i) x (v i j) (i + 1) n) := by
+        rw [hI1.get hi hj]
+        have e0 : ¬ i + 1 ≤ i := by omega
+        simp only [and_self, if_true, true_and, e0, if_false]
+        congr 1
+        apply sdot_congr
+        intro t' ht' _
+        refine ⟨rfl, ?_⟩
+        simp only [ht', if_true]
+      have ht' := ht
+      simp only [bind, Except.bind] at ht' hf
+      rw [ht'] at hf
+      simp only [g1, hw.get hi hi] at hf
+      cases hq : divM (sdot (ent lu i) x (v i j) (i + 1) n) (ent lu i i) with
+      | error e => rw [hq] at hf; simp at hf
+      | ok q =>
+      rw [hq] at hf
+      simp only at hf
+      obtain ⟨s2, hs2, hI2⟩ := hI1.set hi hj q
+      rw [hs2] at hf
+      injection hf with hf
+      subst hf
+      have hcg : ∀ r, i ≤ r → ∀ c : K,
+          sdot (ent lu r) (fun a => if a = i then q else x a) c (r + 1) n
+            = sdot (ent lu r) x c (r + 1) n := by
+        intro r hr c
+        apply sdot_congr
+        intro t' ht' _
+        have : ¬ t' = i := by omega
+        exact ⟨rfl, by simp only [this, if_false]⟩
+      refine ⟨fun a => if a = i then q else x a, hI2.congr ?_, ?_⟩
+      · intro a b _ _
+        by_cases hab : a = i ∧ b = j
+        · obtain ⟨rfl, rfl⟩ := hab
+          simp
+        · simp only [hab, if_false]
+          by_cases hb : b = j
+          · subst hb
+            have hai : ¬ a = i := fun e => hab ⟨e, rfl⟩
+            have : (i ≤ a) = (i + 1 ≤ a) := by apply propext; omega
+            simp only [true_and, this, hai, if_false, and_false]
+          · simp only [hb, false_and, if_false, and_false]
+      · intro r hr1 hr2
+        rw [hcg r hr1]
+        by_cases hri : r = i
+        · subst hri
+          simp only [if_true]
+          exact hq
+        · simp only [hri, if_false]
+          exact hx r (by omega) hr2) h
+  exact ⟨x, hI.congr (fun a b _ _ => by simp), fun i hi => hx i (Nat.zero_le _) hi⟩
+
+/-- (S) the column loop of `inverse`: whenever it returns `B`, every column `c` of `B` is obtained
+from column `c` of the permutation matrix by the forward recurrence followed by the backward
+recurrence with one division per row — exactly the recurrences that `forwardSub lu` and
+`backsolve lu` execute on a vector (`forwardSub_sdot`, `backsolve_sdot`) -/
+theorem inverseLoop_sdot {lu p B : Mat K} {n : Nat} {pe : Nat → Nat → K} (hw : WFn lu n)
+    (hp : Is p n n pe)
+    (h : forM' 0 n p (fun inv j => do
+        let inv ← forM' 0 n inv (fun inv i =>
+          forM' 0 i inv (fun inv k => do
+            let kj ← inv.get k j
+            let ij ← inv.get i j
+            let ik ← lu.get i k
+            inv.set i j (ij - ik * kj)))
+        (List.range n).reverse.foldlM (fun inv i => do
+          let inv ← forM' (i + 1) n inv (fun inv k => do
+            let kj ← inv.get k j
+            let ij ← inv.get i j
+            let ik ← lu.get i k
+            inv.set i j (ij - ik * kj))
+          let ij ← inv.get i j
+          let ii ← lu.get i i
+          let q ← divM ij ii
+          inv.set i j q) inv) = .ok B) :
+    ∃ b : Nat → Nat → K, Is B n n b ∧
+      ∀ c, c < n → ∃ y : Nat → K,
+        (∀ r, r < n → y r = sdot (ent lu r) y (pe r c) 0 r) ∧
+        (∀ i, i < n →
+          divM (sdot (ent lu i) (fun k => b k c) (y i) (i + 1) n) (ent lu i i) = .ok (b i c)) := by
+  obtain ⟨b, hb, _, hcols⟩ := forM'_ok_inv
+    (fun j (s : Mat K) => ∃ b : Nat → Nat → K, Is s n n b ∧
+      (∀ r c, j ≤ c → b r c = pe r c) ∧
+      ∀ c, c < j → ∃ y : Nat → K,
+        (∀ r, r < n → y r = sdot (ent lu r) y (pe r c) 0 r) ∧
+        (∀ i, i < n →
+          divM (sdot (ent lu i) (fun k => b k c) (y i) (i + 1) n) (ent lu i i) = .ok (b i c)))
+    0 n p B _ (Nat.zero_le _)
+    ⟨pe, hp, fun _ _ _ => rfl, fun c hc => by omega⟩
+    (by
+      rintro j s s1 _ hj ⟨b, hb, hrest, hcols⟩ hf
+      obtain ⟨t, y, ht, hI1, hy⟩ := invFwd_sdot hw hb hj
+      have ht' := ht
+      simp only [bind, Except.bind] at ht' hf
+      rw [ht'] at hf
+      obtain ⟨x, hI2, hx⟩ := invBack_sdot hw hI1 hj hf
+      refine ⟨fun a c => if c = j then x a else b a c, hI2.congr ?_, ?_, ?_⟩
+      · intro a c _ _
+        by_cases hc : c = j
+        · simp [hc]
+        · simp [hc]
+      · intro r c hc
+        have : ¬ c = j := by omega
+        simp only [this, if_false]
+        exact hrest r c (by omega)
+      · intro c hc
+        by_cases hcj : c = j
+        · subst hcj
+          refine ⟨y, fun r hr => ?_, fun i hi => ?_⟩
+          · rw [← hrest r c (le_refl _)]; exact hy r hr
+          · have := hx i hi
+            simp only [if_true] at this ⊢
+            exact this
+        · obtain ⟨y', hy1, hy2⟩ := hcols c (by omega)
+          refine ⟨y', hy1, fun i hi => ?_⟩
+          simp only [hcj, if_false]
+          exact hy2 i hi) h
+  exact ⟨b, hb, hcols⟩
+
+/-- (S) **`inverse()`, structure**: whenever `inverse A` returns `X` (for every scalar type, no
+algebraic law), `luDecomp A` returned a state `s` and every column of `X` is the forward and
+backward recurrence applied to the corresponding column of `s.perm` -/
+theorem inverse_sdot {A X : Mat K} {n : Nat} (hA : WFn A n) (h : inverse A = .ok X) :
+    ∃ s : LU K, luDecomp A = .ok s ∧
+      ∀ pe : Nat → Nat → K, WFn s.lu n → Is s.perm n n pe →
+        ∃ b : Nat → Nat → K, Is X n n b ∧
+          ∀ c, c < n → ∃ y : Nat → K,
+            (∀ r, r < n → y r = sdot (ent s.lu r) y (pe r c) 0 r) ∧
+            (∀ i, i < n → divM (sdot (ent s.lu i) (fun k => b k c) (y i) (i + 1) n)
+              (ent s.lu i i) = .ok (b i c)) := by
+  unfold inverse at h
+  have h2 : ¬ A.rows ≠ A.cols := by rw [hA.2.1, hA.2.2]; simp
+  simp only [h2, if_false] at h
+  obtain ⟨s, hd, h⟩ := Except.bind_eq_ok' h
+  refine ⟨s, hd, fun pe hw hp => ?_⟩
+  rw [hA.2.1] at h
+  exact inverseLoop_sdot hw hp h
+
+end InvStructural
+
+/-! ### the two recurrences in `Fl M`, function level -/
+
+section InvFl
+variable {M : FlModel}
+
+/-- the forward recurrence (proof of `forwardSub_backward_ent`, for functions) -/
+theorem fwd_rows_fl (hu : M.u < 1) {m : Mat (Fl M)} {n : Nat} (y c : Nat → Fl M)
+    (hrows : ∀ r, r < n → y r = sdot (ent m r) y (c r) 0 r) :
+    ∃ lam : Nat → Nat → ℝ, (∀ r k, M.Th r (lam r k)) ∧
+      ∀ r, r < n →
+        ∑ k ∈ Finset.range n, Lfn (valEnt m) r k * (lam r k * (y k).val) = (c r).val := by
+  have hrow : ∀ r, ∃ lr : Nat → ℝ, (∀ k, M.Th r (lr k)) ∧ (r < n →
+      ∑ k ∈ Finset.range n, Lfn (valEnt m) r k * (lr k * (y k).val) = (c r).val) := by
+    intro r
+    obtain ⟨θ0, θ, h0, hθ, e⟩ := sdot_backward hu (ent m r) y (c r) 0 r
+    rw [Nat.sub_zero] at h0 hθ
+    refine ⟨fun k => if k = r then θ0 else θ k, ?_, fun hr => ?_⟩
+    · intro k
+      beta_reduce
+      by_cases hk : k = r
+      · rw [if_pos hk]; exact h0
+      · rw [if_neg hk]; exact hθ k
+    · rw [Lsum (valEnt m) _ hr, e, ← hrows r hr, ← Finset.range_eq_Ico]
+      beta_reduce
+      have : ∑ k ∈ Finset.range r, valEnt m r k * ((if k = r then θ0 else θ k) * (y k).val)
+          = ∑ t ∈ Finset.range r, (ent m r t).val * (y t).val * θ t := by
+        apply Finset.sum_congr rfl
+        intro k hk
+        have : ¬ k = r := by have := Finset.mem_range.mp hk; omega
+        rw [if_neg this]
+        unfold valEnt
+        ring
+      rw [this, if_pos rfl]
+      ring
+  choose lam hlam using hrow
+  exact ⟨lam, fun r k => (hlam r).1 k, fun r hr => (hlam r).2 hr⟩
+
+/-- the backward recurrence with one division per row (proof of `backsolve_backward_ent`, for
+functions) -/
+theorem back_rows_fl (hu : M.u < 1) {m : Mat (Fl M)} {n : Nat} (x y : Nat → Fl M)
+    (hrows : ∀ i, i < n → divM (sdot (ent m i) x (y i) (i + 1) n) (ent m i i) = .ok (x i)) :
+    ∃ μ : Nat → Nat → ℝ, (∀ i c, i < n → M.Th (n - i) (μ i c)) ∧
+      ∀ i, i < n → (ent m i i).val ≠ 0 ∧
+        ∑ c ∈ Finset.range n, Ufn n (valEnt m) i c * (μ i c * (x c).val) = (y i).val := by
+  have hrow : ∀ i, ∃ μr : Nat → ℝ, i < n → (∀ c, M.Th (n - i) (μr c)) ∧ (ent m i i).val ≠ 0 ∧
+      ∑ c ∈ Finset.range n, Ufn n (valEnt m) i c * (μr c * (x c).val) = (y i).val := by
+    intro i
+    by_cases hi : i < n
+    · obtain ⟨hne, hq⟩ := Fl.divM_ok (hrows i hi)
+      obtain ⟨θ0, θ, h0, hθ, e⟩ := sdot_backward hu (ent m i) x (y i) (i + 1) n
+      obtain ⟨τ, hτ, eτ⟩ := FlModel.exists_th hu
+        ((sdot (ent m i) x (y i) (i + 1) n).val / (ent m i i).val)
+      have hτpos := hτ.pos hu
+      have hxi : (x i).val
+          = (sdot (ent m i) x (y i) (i + 1) n).val / (ent m i i).val * τ := by
+        rw [hq, Fl.div_val, eτ]
+      have hd : n - i = (n - (i + 1)) + 1 := by omega
+      refine ⟨fun c => if c = i then θ0 / τ else θ c, fun _ => ⟨?_, hne, ?_⟩⟩
+      · intro c
+        beta_reduce
+        rw [hd]
+        by_cases hc : c = i
+        · rw [if_pos hc]; exact h0.div hu hτ
+        · rw [if_neg hc]; exact (hθ c).mono hu (by omega)
+      · rw [Usum (valEnt m) _ hi, e]
+        beta_reduce
+        have : ∑ k ∈ Finset.Ico (i + 1) n, valEnt m i k * ((if k = i then θ0 / τ else θ k) * (x k).val)
+            = ∑ t ∈ Finset.Ico (i + 1) n, (ent m i t).val * (x t).val * θ t := by
+          apply Finset.sum_congr rfl
+          intro k hk
+          have : ¬ k = i := by have := (Finset.mem_Ico.mp hk).1; omega
+          rw [if_neg this]
+          unfold valEnt
+          ring
+        rw [this, if_pos rfl, hxi]
+        unfold valEnt
+        field_simp
+    · exact ⟨fun _ => 1, fun h => absurd h hi⟩
+  choose μ hμ using hrow
+  exact ⟨μ, fun i c hi => (hμ i hi).1 c, fun i hi => (hμ i hi).2⟩
+
+/-- **`inverse()` in `Fl M`, core**: whenever `inverse A` returns `X`, with `s` the computed
+factorisation and `π` its row permutation: all computed pivots are non-zero and every column `j`
+of `X` solves EXACTLY a system with a perturbed row-permuted matrix, `(PA + ΔA') x̂_j = P e_j`,
+`|ΔA'| ≤ (gq (n-1) + gq (2n-1)) |L̂||Û|` (`P e_j` is a column of the stored 0/1 matrix: it is
+copied, not computed, hence exact). -/
+theorem inverse_fl_core (hu : M.u < 1) {n : Nat} {A X : Mat (Fl M)} (hA : WFn A n)
+    (h : inverse A = .ok X) :
+    ∃ s π σ, luDecomp A = .ok s ∧ LUInvF n (ent A) n s π σ ∧ WFn X n ∧
+      (∀ k, k < n → (ent s.lu k k).val ≠ 0) ∧
+      ∀ j, j < n → ∃ ΔA : Nat → Nat → ℝ,
+        (∀ r, r < n → ∑ c ∈ Finset.range n,
+          ((ent A (π r) c).val + ΔA r c) * (ent X c j).val = if j = π r then 1 else 0) ∧
+        ∀ r c, r < n → c < n → |ΔA r c| ≤ (M.gq (n - 1) + M.gq (2 * n - 1)) *
+          ∑ k ∈ Finset.range n, |Lfn (valEnt s.lu) r k| * |Ufn n (valEnt s.lu) k c| := by
+  obtain ⟨s, hd, hcols⟩ := inverse_sdot hA h
+  obtain ⟨π, σ, hs⟩ := luDecomp_fl hu hA hd
+  obtain ⟨b, hb, hcol⟩ := hcols _ hs.lu hs.perm
+  have hΘ' : ∀ r c, ∃ Θ : Nat → ℝ, r < n → c < n → (∀ k, M.Th r (Θ k)) ∧
+      (ent A (π r) c).val = ∑ k ∈ Finset.range n,
+        Lfn (valEnt s.lu) r k * (Ufn n (valEnt s.lu) k c * Θ k) := by
+    intro r c
+    by_cases hrc : r < n ∧ c < n
+    · have hrow := hs.row r hrc.1
+      have hmin : min r n = r := by omega
+      rw [hmin] at hrow
+      obtain ⟨Θ, h1, h2⟩ := hrow.full hrc.1 c hrc.2
+      exact ⟨Θ, fun _ _ => ⟨h1, h2⟩⟩
+    · exact ⟨fun _ => 1, fun h1 h2 => absurd ⟨h1, h2⟩ hrc⟩
+  choose Θ hΘ using hΘ'
+  refine ⟨s, π, σ, hd, hs, hb.wfn, ?_, ?_⟩
+  · intro k hk
+    obtain ⟨y, hy1, hy2⟩ := hcol 0 (by omega)
+    exact (Fl.divM_ok (hy2 k hk)).1
+  · intro j hj
+    obtain ⟨y, hy1, hy2⟩ := hcol j hj
+    obtain ⟨lam, hlam, hL⟩ := fwd_rows_fl hu y (fun r => if j = π r then (1 : Fl M) else 0) hy1
+    obtain ⟨mu, hmu, hU⟩ := back_rows_fl hu (fun k => b k j) y hy2
+    have hβ : ∀ r, (if j = π r then (1 : Fl M) else 0).val = if j = π r then (1 : ℝ) else 0 := by
+      intro r; split_ifs <;> rfl
+    have hgq : ∀ r k c, r < n → k < n → c < n → M.Th (2 * n - 1) (lam r k * mu k c) := by
+      intro r k c hr hk hc
+      exact ((hlam r k).mul hu (hmu k c hk)).mono hu (by omega)
+    obtain ⟨ΔA, h1, h2⟩ := lu_compose (n := n) (Lfn (valEnt s.lu)) (Ufn n (valEnt s.lu))
+      (fun r c => (ent A (π r) c).val)
+      (fun r => if j = π r then (1 : ℝ) else 0) (fun k => (y k).val) (fun c => (b c j).val)
+      Θ lam mu (M.gq (n - 1)) (M.gq (2 * n - 1))
+      (fun r c hr hc => (hΘ r c hr hc).2)
+      (fun r hr => by rw [hL r hr, hβ r])
+      (fun k hk => (hU k hk).2)
+      (fun r c k hr hc hk =>
+        (((hΘ r c hr hc).1 k).mono hu (show r ≤ n - 1 by omega)).abs_sub_one_le hu)
+      (fun r k c hr hk hc => (hgq r k c hr hk hc).abs_sub_one_le hu)
+    refine ⟨ΔA, fun r hr => ?_, h2⟩
+    rw [← h1 r hr]
+    apply Finset.sum_congr rfl
+    intro c hc
+    rw [hb.ent_eq (Finset.mem_range.mp hc) hj]
+
+end InvFl
+
 end Mat
 end Ohsl
